@@ -426,7 +426,8 @@ fn run(ctx: &RunCtx) {
         }
         CaseResult::Pass { nontrivial: interesting.then(|| hash_parts(&[&bytes, &[i as u8 % 3]])) }
     });
-    let structured = structured_strings();
+    static STRUCTURED: std::sync::OnceLock<Vec<Vec<u8>>> = std::sync::OnceLock::new();
+    let structured = STRUCTURED.get_or_init(structured_strings);
     ctx.add_class("structured_strings", structured.len() as u64);
     ctx.enumerate("structured_strings", structured.len() as u64 * 3 * CONTEXTS as u64, |i, st| {
         let g = GENS[(i % 3) as usize];
@@ -444,7 +445,8 @@ fn run(ctx: &RunCtx) {
         }
         CaseResult::Pass { nontrivial: Some(hash_parts(&[bytes, &[g as u8, c as u8]])) }
     });
-    let numbers = boundary_numbers();
+    static NUMBERS: std::sync::OnceLock<Vec<NumSpec>> = std::sync::OnceLock::new();
+    let numbers = NUMBERS.get_or_init(boundary_numbers);
     ctx.add_class("boundary_numbers", numbers.len() as u64);
     ctx.enumerate("boundary_numbers", numbers.len() as u64 * 3 * CONTEXTS as u64, |i, _st| {
         let g = GENS[(i % 3) as usize];
@@ -467,7 +469,8 @@ fn run(ctx: &RunCtx) {
     // generators, read by the independent parser: the value must be the one the independent decoder
     // gives to the source text (escape forms followed by digits, whole numbers beyond 2^53 / 2^63 /
     // 2^64 written with all their digits, exponent spellings, interpolated text segments)
-    let texts = literal_texts();
+    static TEXTS: std::sync::OnceLock<Vec<String>> = std::sync::OnceLock::new();
+    let texts = TEXTS.get_or_init(literal_texts);
     ctx.enumerate("literal_texts", texts.len() as u64 * 2, |i, st| {
         let text = &texts[(i / 2) as usize];
         let g = if i % 2 == 0 { crate::props::c02::Gen::Dense } else { crate::props::c02::Gen::Readable };
